@@ -6,25 +6,104 @@ import NV.C01.Props
 namespace NV.C01
 open NV.Gen.C01
 
-set_option maxHeartbeats 4000000 in
-/-- `c[n1..n2] = rhs` (all four forms, all three kinds, in-place and reallocating paths): every read of the old
-    container and of the rhs and every write to the old or the freshly allocated container is inside its allocation,
-    for every size (within the C type ranges) and every int64 operand.  Sizes are bounded by 2^30 so that the C `int`
-    expression `size - ind2 + ind1 + fsize` cannot wrap (a string that long cannot be built). -/
-theorem lrange_access_in_bounds (lim : Limits) (k : Kind) (r1 r2 : Bool) (size n1 n2 fsize : Int) (out : Out)
-    (hk : SizeOk k size) (hf : SizeOk k fsize) (hs30 : size ≤ 1073741823) (hf30 : fsize ≤ 1073741823)
-    (h : opLrange lim k r1 r2 size n1 n2 fsize = .ok out) :
-    ∀ a ∈ out.acc, a.inBounds k size fsize := by
-  obtain ⟨h0, hk⟩ := hk
-  obtain ⟨f0, hf⟩ := hf
-  unfold opLrange at h
-  cases k <;> simp only at hk hf <;>
-  simp only [guard_lrange_ind2, guard_lrange_ind1, guard_alloc_empty_array, guard_alloc_buffer, inS32, trunc32, truncU64] at h <;>
-  cases r1 <;> cases r2 <;> simp only [Bool.false_eq_true, ↓reduceIte] at h <;>
+/-- push_lvalue_range: the stored bounds lie inside [0, size] whatever the operands -/
+theorem lrangeBoundsCore_ok (sz n1 n2 i1 i2 ind1 ind2 : Int)
+    (h : lrangeBoundsCore sz n1 n2 i1 i2 = .ok (ind1, ind2)) : 0 ≤ ind1 ∧ ind1 ≤ sz ∧ 0 ≤ ind2 ∧ ind2 ≤ sz := by
+  unfold lrangeBoundsCore at h
+  by_cases c1 : guard_lrange_ind2_pre n2 sz = true
+  · rw [if_pos c1] at h; cases h
+  rw [if_neg c1] at h
+  by_cases c2 : (!inS32 i2) = true
+  · rw [if_pos c2] at h; cases h
+  rw [if_neg c2] at h
+  by_cases c3 : (!inS32 (i2 + 1)) = true
+  · rw [if_pos c3] at h; cases h
+  rw [if_neg c3] at h
+  by_cases c4 : guard_lrange_ind2 i2 sz = true
+  · rw [if_pos c4] at h; cases h
+  rw [if_neg c4] at h
+  by_cases c5 : guard_lrange_ind1_pre n1 sz = true
+  · rw [if_pos c5] at h; cases h
+  rw [if_neg c5] at h
+  by_cases c6 : (!inS32 i1) = true
+  · rw [if_pos c6] at h; cases h
+  rw [if_neg c6] at h
+  by_cases c7 : guard_lrange_ind1 i1 sz = true
+  · rw [if_pos c7] at h; cases h
+  rw [if_neg c7] at h
+  cases h
+  have e3 : inS32 (i2 + 1) = true := by simpa using c3
+  have := (inS32_iff _).mp e3
+  have a2 := g_lrange_ind2 i2 sz this.1 this.2 (not_true_to_false c4)
+  have a1 := g_lrange_ind1 i1 sz (not_true_to_false c7)
+  omega
+
+theorem lrangeBounds_ok (r1 r2 : Bool) (sz n1 n2 ind1 ind2 : Int)
+    (h : lrangeBounds r1 r2 sz n1 n2 = .ok (ind1, ind2)) : 0 ≤ ind1 ∧ ind1 ≤ sz ∧ 0 ≤ ind2 ∧ ind2 ≤ sz :=
+  lrangeBoundsCore_ok sz n1 n2 _ _ ind1 ind2 h
+
+/-- after the 64-bit pre-checks the narrowing `(int)n`, `size - (int)n` and `++ind2` are exact: push_lvalue_range
+    has no undefined behaviour left (that part of the former known finding is repaired) -/
+theorem lrangeBounds_no_ub (r1 r2 : Bool) (sz n1 n2 : Int) (h0 : 0 ≤ sz) (h1 : sz ≤ 2147483645) (s : String) :
+    lrangeBounds r1 r2 sz n1 n2 ≠ .error (.ub s) := by
+  unfold lrangeBounds lrangeBoundsCore
+  by_cases c1 : guard_lrange_ind2_pre n2 sz = true
+  · rw [if_pos c1]; simp
+  rw [if_neg c1]
+  have p2 := g_lrange_ind2_pre n2 sz h0 (by omega) (not_true_to_false c1)
+  have t2 : trunc32 n2 = n2 := trunc32_id _ (by omega) (by omega)
+  have s2 : inS32 (if r2 = true then sz - trunc32 n2 else trunc32 n2) = true := by
+    simp only [t2, inS32_iff]; cases r2 <;> simp <;> omega
+  have s3 : inS32 ((if r2 = true then sz - trunc32 n2 else trunc32 n2) + 1) = true := by
+    simp only [t2, inS32_iff]; cases r2 <;> simp <;> omega
+  rw [s2, s3]
+  simp only [Bool.not_true, Bool.false_eq_true, ↓reduceIte]
+  by_cases c4 : guard_lrange_ind2 (if r2 = true then sz - trunc32 n2 else trunc32 n2) sz = true
+  · rw [if_pos c4]; simp
+  rw [if_neg c4]
+  by_cases c5 : guard_lrange_ind1_pre n1 sz = true
+  · rw [if_pos c5]; simp
+  rw [if_neg c5]
+  have p1 := g_lrange_ind1_pre n1 sz h0 (by omega) (not_true_to_false c5)
+  have t1 : trunc32 n1 = n1 := trunc32_id _ (by omega) (by omega)
+  have s1 : inS32 (if r1 = true then sz - trunc32 n1 else trunc32 n1) = true := by
+    simp only [t1, inS32_iff]; cases r1 <;> simp <;> omega
+  rw [s1]
+  simp only [Bool.not_true, Bool.false_eq_true, ↓reduceIte]
+  by_cases c7 : guard_lrange_ind1 (if r1 = true then sz - trunc32 n1 else trunc32 n1) sz = true
+  · rw [if_pos c7]; simp
+  · rw [if_neg c7]; simp
+
+set_option maxHeartbeats 2000000 in
+/-- copy_lvalue_range / assign_lvalue_range: with bounds inside [0, size] every read of the old container and of the
+    rhs and every write to the old or the freshly allocated container is inside its allocation -/
+theorem lrangeAssign_in_bounds (lim : Limits) (k : Kind) (sz ind1 ind2 fsize : Int) (out : Out)
+    (h0 : 0 ≤ sz) (f0 : 0 ≤ fsize) (b : 0 ≤ ind1 ∧ ind1 ≤ sz ∧ 0 ≤ ind2 ∧ ind2 ≤ sz)
+    (h : lrangeAssign lim k sz ind1 ind2 fsize = .ok out) :
+    ∀ a ∈ out.acc, a.inBounds k sz fsize := by
+  unfold lrangeAssign at h
+  cases k <;> simp only at h <;>
     (repeat' split at h) <;> cases h <;>
     (intro a ha
      simp [rd, wr] at ha
      (repeat' rcases ha with rfl | ha) <;>
-       (try subst ha) <;> simp [Access.inBounds, allocOf, bufTailPad, bufHeader, bufHeaderSize] at * <;> omega)
+       (try subst ha) <;> simp [Access.inBounds, allocOf, bufTailPad] at * <;> omega)
+
+/-- `c[n1..n2] = rhs` (all four forms, all three kinds, in-place and reallocating paths): every access is inside its
+    allocation, for every size within the C type ranges (strings / buffers below 2^31-1: `size` is an `int` there)
+    and every int64 operand. -/
+theorem lrange_access_in_bounds (lim : Limits) (k : Kind) (r1 r2 : Bool) (size n1 n2 fsize : Int) (out : Out)
+    (hk : SizeOk k size) (hs : size ≤ 2147483646) (f0 : 0 ≤ fsize)
+    (h : opLrange lim k r1 r2 size n1 n2 fsize = .ok out) :
+    ∀ a ∈ out.acc, a.inBounds k size fsize := by
+  obtain ⟨h0, _⟩ := hk
+  have hsz : lrangeSz k size = size := by
+    cases k <;> simp only [lrangeSz] <;> exact trunc32_id _ (by omega) (by omega)
+  unfold opLrange at h
+  rw [hsz] at h
+  split at h
+  · cases h
+  · rename_i i1 i2 hb
+    exact lrangeAssign_in_bounds lim k size i1 i2 fsize out h0 f0 (lrangeBounds_ok r1 r2 size n1 n2 i1 i2 hb) h
 
 end NV.C01
